@@ -216,6 +216,13 @@ module Coq_Pos =
   | XO p -> XI (pred_double p)
   | XH -> XH
 
+  (** val pred_N : positive -> n **)
+
+  let pred_N = function
+  | XI p -> Npos (XO p)
+  | XO p -> Npos (pred_double p)
+  | XH -> N0
+
   type mask = Pos.mask =
   | IsNul
   | IsPos of positive
@@ -290,6 +297,20 @@ module Coq_Pos =
   | XO n' -> iter f (iter f x n') n'
   | XH -> f x
 
+  (** val div2 : positive -> positive **)
+
+  let div2 = function
+  | XI p0 -> p0
+  | XO p0 -> p0
+  | XH -> XH
+
+  (** val div2_up : positive -> positive **)
+
+  let div2_up = function
+  | XI p0 -> succ p0
+  | XO p0 -> p0
+  | XH -> XH
+
   (** val compare_cont : comparison -> positive -> positive -> comparison **)
 
   let rec compare_cont r x y =
@@ -327,6 +348,52 @@ module Coq_Pos =
              | XH -> true
              | _ -> false)
 
+  (** val coq_Nsucc_double : n -> n **)
+
+  let coq_Nsucc_double = function
+  | N0 -> Npos XH
+  | Npos p -> Npos (XI p)
+
+  (** val coq_Ndouble : n -> n **)
+
+  let coq_Ndouble = function
+  | N0 -> N0
+  | Npos p -> Npos (XO p)
+
+  (** val coq_lxor : positive -> positive -> n **)
+
+  let rec coq_lxor p q =
+    match p with
+    | XI p0 ->
+      (match q with
+       | XI q0 -> coq_Ndouble (coq_lxor p0 q0)
+       | XO q0 -> coq_Nsucc_double (coq_lxor p0 q0)
+       | XH -> Npos (XO p0))
+    | XO p0 ->
+      (match q with
+       | XI q0 -> coq_Nsucc_double (coq_lxor p0 q0)
+       | XO q0 -> coq_Ndouble (coq_lxor p0 q0)
+       | XH -> Npos (XI p0))
+    | XH ->
+      (match q with
+       | XI q0 -> Npos (XO q0)
+       | XO q0 -> Npos (XI q0)
+       | XH -> N0)
+
+  (** val testbit : positive -> n -> bool **)
+
+  let rec testbit p n0 =
+    match p with
+    | XI p0 -> (match n0 with
+                | N0 -> true
+                | Npos n1 -> testbit p0 (pred_N n1))
+    | XO p0 -> (match n0 with
+                | N0 -> false
+                | Npos n1 -> testbit p0 (pred_N n1))
+    | XH -> (match n0 with
+             | N0 -> true
+             | Npos _ -> false)
+
   (** val iter_op : ('a1 -> 'a1 -> 'a1) -> positive -> 'a1 -> 'a1 **)
 
   let rec iter_op op p a =
@@ -362,6 +429,12 @@ module N =
   let double = function
   | N0 -> N0
   | Npos p -> Npos (XO p)
+
+  (** val succ_pos : n -> positive **)
+
+  let succ_pos = function
+  | N0 -> XH
+  | Npos p -> Coq_Pos.succ p
 
   (** val sub : n -> n -> n **)
 
@@ -412,6 +485,22 @@ module N =
        | Npos p -> (match p with
                     | XH -> ((Npos XH), N0)
                     | _ -> (N0, (Npos XH))))
+
+  (** val coq_lxor : n -> n -> n **)
+
+  let coq_lxor n0 m =
+    match n0 with
+    | N0 -> m
+    | Npos p -> (match m with
+                 | N0 -> n0
+                 | Npos q -> Coq_Pos.coq_lxor p q)
+
+  (** val testbit : n -> n -> bool **)
+
+  let testbit a n0 =
+    match a with
+    | N0 -> false
+    | Npos p -> Coq_Pos.testbit p n0
  end
 
 (** val nth : int -> 'a1 list -> 'a1 -> 'a1 **)
@@ -712,6 +801,11 @@ module Z =
           | _ -> ((opp (add q (Zpos XH))), (sub b r)))
        | Zneg b' -> let (q, r) = pos_div_eucl a' (Zpos b') in (q, (opp r)))
 
+  (** val div : z -> z -> z **)
+
+  let div a b =
+    let (q, _) = div_eucl a b in q
+
   (** val modulo : z -> z -> z **)
 
   let modulo a b =
@@ -749,6 +843,67 @@ module Z =
 
   let rem a b =
     snd (quotrem a b)
+
+  (** val odd : z -> bool **)
+
+  let odd = function
+  | Z0 -> false
+  | Zpos p -> (match p with
+               | XO _ -> false
+               | _ -> true)
+  | Zneg p -> (match p with
+               | XO _ -> false
+               | _ -> true)
+
+  (** val div2 : z -> z **)
+
+  let div2 = function
+  | Z0 -> Z0
+  | Zpos p -> (match p with
+               | XH -> Z0
+               | _ -> Zpos (Coq_Pos.div2 p))
+  | Zneg p -> Zneg (Coq_Pos.div2_up p)
+
+  (** val testbit : z -> z -> bool **)
+
+  let testbit a = function
+  | Z0 -> odd a
+  | Zpos p ->
+    (match a with
+     | Z0 -> false
+     | Zpos a0 -> Coq_Pos.testbit a0 (Npos p)
+     | Zneg a0 -> negb (N.testbit (Coq_Pos.pred_N a0) (Npos p)))
+  | Zneg _ -> false
+
+  (** val shiftl : z -> z -> z **)
+
+  let shiftl a = function
+  | Z0 -> a
+  | Zpos p -> Coq_Pos.iter (mul (Zpos (XO XH))) a p
+  | Zneg p -> Coq_Pos.iter div2 a p
+
+  (** val shiftr : z -> z -> z **)
+
+  let shiftr a n0 =
+    shiftl a (opp n0)
+
+  (** val coq_lxor : z -> z -> z **)
+
+  let coq_lxor a b =
+    match a with
+    | Z0 -> b
+    | Zpos a0 ->
+      (match b with
+       | Z0 -> a
+       | Zpos b0 -> of_N (Coq_Pos.coq_lxor a0 b0)
+       | Zneg b0 ->
+         Zneg (N.succ_pos (N.coq_lxor (Npos a0) (Coq_Pos.pred_N b0))))
+    | Zneg a0 ->
+      (match b with
+       | Z0 -> a
+       | Zpos b0 ->
+         Zneg (N.succ_pos (N.coq_lxor (Coq_Pos.pred_N a0) (Npos b0)))
+       | Zneg b0 -> of_N (N.coq_lxor (Coq_Pos.pred_N a0) (Coq_Pos.pred_N b0)))
  end
 
 type scalar = { s0 : __; s1 : __; sadd : (__ -> __ -> __);
@@ -3278,6 +3433,345 @@ let network4_accepts_all s i0 i1 i2 i3 d0 d1 d2 d3 a b c d =
       (fst (stage4 s false i0 i2 i3 i1 d0 d2 d3 d1 a c d b)))
     (fst (stage4 s false i1 i2 i3 i0 d1 d2 d3 d0 b c d a))
 
+(** val wrap0 : z -> z -> z **)
+
+let wrap0 w x =
+  Z.sub
+    (Z.modulo (Z.add x (Z.pow (Zpos (XO XH)) (Z.sub w (Zpos XH))))
+      (Z.pow (Zpos (XO XH)) w)) (Z.pow (Zpos (XO XH)) (Z.sub w (Zpos XH)))
+
+(** val map2 : ('a1 -> 'a2 -> 'a3) -> 'a1 list -> 'a2 list -> 'a3 list **)
+
+let rec map2 f l m =
+  match l with
+  | [] -> []
+  | a :: l' -> (match m with
+                | [] -> []
+                | b :: m' -> (f a b) :: (map2 f l' m'))
+
+(** val l_add : z -> z -> z -> z **)
+
+let l_add w a b =
+  wrap0 w (Z.add a b)
+
+(** val l_sub : z -> z -> z -> z **)
+
+let l_sub w a b =
+  wrap0 w (Z.sub a b)
+
+(** val l_mul : z -> z -> z -> z **)
+
+let l_mul w a b =
+  wrap0 w (Z.mul a b)
+
+(** val l_neg : z -> z -> z **)
+
+let l_neg w a =
+  wrap0 w (Z.sub Z0 a)
+
+(** val l_abs : z -> z -> z **)
+
+let l_abs w a =
+  wrap0 w (Z.abs a)
+
+(** val l_div : z -> z -> z -> z **)
+
+let l_div _ =
+  Z.quot
+
+(** val v_add : z -> z list -> z list -> z list **)
+
+let v_add w =
+  map2 (l_add w)
+
+(** val v_sub : z -> z list -> z list -> z list **)
+
+let v_sub w =
+  map2 (l_sub w)
+
+(** val v_mul : z -> z list -> z list -> z list **)
+
+let v_mul w =
+  map2 (l_mul w)
+
+(** val v_div : z -> z list -> z list -> z list **)
+
+let v_div w =
+  map2 (l_div w)
+
+(** val v_min : z list -> z list -> z list **)
+
+let v_min =
+  map2 Z.min
+
+(** val v_max : z list -> z list -> z list **)
+
+let v_max =
+  map2 Z.max
+
+(** val v_neg : z -> z list -> z list **)
+
+let v_neg w =
+  map (l_neg w)
+
+(** val v_abs : z -> z list -> z list **)
+
+let v_abs w =
+  map (l_abs w)
+
+(** val v_fmadd : z -> z list -> z list -> z list -> z list **)
+
+let v_fmadd w a b c =
+  v_add w (v_mul w a b) c
+
+(** val v_fmsub : z -> z list -> z list -> z list -> z list **)
+
+let v_fmsub w a b c =
+  v_sub w (v_mul w a b) c
+
+(** val v_fnmadd : z -> z list -> z list -> z list -> z list **)
+
+let v_fnmadd w a b c =
+  v_sub w c (v_mul w a b)
+
+(** val v_reverse : z list -> z list **)
+
+let v_reverse =
+  rev
+
+(** val v_set : z list -> z list **)
+
+let v_set =
+  rev
+
+(** val v_set_sequential : z -> int -> z -> z list **)
+
+let v_set_sequential w n0 x =
+  map (fun i -> wrap0 w (Z.add x (Z.of_nat i))) (seq 0 n0)
+
+(** val h_sum : z -> z list -> z **)
+
+let h_sum w l =
+  fold_left (fun acc x -> wrap0 w (Z.add acc x)) l Z0
+
+(** val h_prod : z -> z list -> z **)
+
+let h_prod w l =
+  fold_left (fun acc x -> wrap0 w (Z.mul acc x)) l (Zpos XH)
+
+(** val h_dot : z -> z list -> z list -> z **)
+
+let h_dot w a b =
+  h_sum w (v_mul w a b)
+
+(** val h_min : z list -> z **)
+
+let h_min = function
+| [] -> Z0
+| x :: r -> fold_left Z.min r x
+
+(** val h_max : z list -> z **)
+
+let h_max = function
+| [] -> Z0
+| x :: r -> fold_left Z.max r x
+
+(** val u32 : z -> z **)
+
+let u32 x =
+  Z.modulo x (Z.pow (Zpos (XO XH)) (Zpos (XO (XO (XO (XO (XO XH)))))))
+
+(** val s32 : z -> z **)
+
+let s32 x =
+  wrap0 (Zpos (XO (XO (XO (XO (XO XH)))))) x
+
+(** val ln : z list -> int -> z **)
+
+let ln a k =
+  nth k a Z0
+
+(** val mM_SHUFFLE : z -> z -> z -> z -> z **)
+
+let mM_SHUFFLE z0 y x w =
+  Z.add
+    (Z.add
+      (Z.add (Z.mul z0 (Zpos (XO (XO (XO (XO (XO (XO XH))))))))
+        (Z.mul y (Zpos (XO (XO (XO (XO XH)))))))
+      (Z.mul x (Zpos (XO (XO XH))))) w
+
+(** val shuffle_epi32 : z list -> z -> z list **)
+
+let shuffle_epi32 a imm =
+  map (fun k ->
+    ln a
+      (Z.to_nat
+        (Z.modulo (Z.div imm (Z.pow (Zpos (XO (XO XH))) (Z.of_nat k))) (Zpos
+          (XO (XO XH)))))) (0 :: ((Stdlib.Int.succ 0) :: ((Stdlib.Int.succ
+    (Stdlib.Int.succ 0)) :: ((Stdlib.Int.succ (Stdlib.Int.succ
+    (Stdlib.Int.succ 0))) :: []))))
+
+(** val add_epi32 : z list -> z list -> z list **)
+
+let add_epi32 a b =
+  map2 (fun x y -> s32 (Z.add x y)) a b
+
+(** val sub_epi32 : z list -> z list -> z list **)
+
+let sub_epi32 a b =
+  map2 (fun x y -> s32 (Z.sub x y)) a b
+
+(** val mul_epu32 : z list -> z list -> z list **)
+
+let mul_epu32 a b =
+  let p0 = Z.mul (u32 (ln a 0)) (u32 (ln b 0)) in
+  let p2 =
+    Z.mul (u32 (ln a (Stdlib.Int.succ (Stdlib.Int.succ 0))))
+      (u32 (ln b (Stdlib.Int.succ (Stdlib.Int.succ 0))))
+  in
+  (s32 p0) :: ((s32
+                 (Z.div p0
+                   (Z.pow (Zpos (XO XH)) (Zpos (XO (XO (XO (XO (XO XH))))))))) :: (
+  (s32 p2) :: ((s32
+                 (Z.div p2
+                   (Z.pow (Zpos (XO XH)) (Zpos (XO (XO (XO (XO (XO XH))))))))) :: [])))
+
+(** val unpacklo_epi32 : z list -> z list -> z list **)
+
+let unpacklo_epi32 a b =
+  (ln a 0) :: ((ln b 0) :: ((ln a (Stdlib.Int.succ 0)) :: ((ln b
+                                                             (Stdlib.Int.succ
+                                                             0)) :: [])))
+
+(** val unpackhi_epi32 : z list -> z list -> z list **)
+
+let unpackhi_epi32 a b =
+  (ln a (Stdlib.Int.succ (Stdlib.Int.succ 0))) :: ((ln b (Stdlib.Int.succ
+                                                     (Stdlib.Int.succ 0))) :: (
+    (ln a (Stdlib.Int.succ (Stdlib.Int.succ (Stdlib.Int.succ 0)))) :: (
+    (ln b (Stdlib.Int.succ (Stdlib.Int.succ (Stdlib.Int.succ 0)))) :: [])))
+
+(** val unpacklo_epi64 : z list -> z list -> z list **)
+
+let unpacklo_epi64 a b =
+  (ln a 0) :: ((ln a (Stdlib.Int.succ 0)) :: ((ln b 0) :: ((ln b
+                                                             (Stdlib.Int.succ
+                                                             0)) :: [])))
+
+(** val srai_epi32 : z list -> z -> z list **)
+
+let srai_epi32 a k =
+  map (fun x -> Z.shiftr x k) a
+
+(** val xor_si128 : z list -> z list -> z list **)
+
+let xor_si128 a b =
+  map2 Z.coq_lxor a b
+
+(** val cvtsi128_si32 : z list -> z **)
+
+let cvtsi128_si32 a =
+  ln a 0
+
+(** val setzero : z list **)
+
+let setzero =
+  Z0 :: (Z0 :: (Z0 :: (Z0 :: [])))
+
+(** val sum_epi32 : z list -> z **)
+
+let sum_epi32 a =
+  let c =
+    add_epi32 a
+      (shuffle_epi32 a
+        (mM_SHUFFLE (Zpos (XO XH)) (Zpos (XI XH)) Z0 (Zpos XH)))
+  in
+  let d =
+    add_epi32 c
+      (shuffle_epi32 c
+        (mM_SHUFFLE Z0 (Zpos XH) (Zpos (XO XH)) (Zpos (XI XH))))
+  in
+  cvtsi128_si32 d
+
+(** val prod_epi32 : z list -> z **)
+
+let prod_epi32 a =
+  let c =
+    mul_epu32 a
+      (shuffle_epi32 a
+        (mM_SHUFFLE (Zpos (XO XH)) (Zpos (XI XH)) Z0 (Zpos XH)))
+  in
+  let d =
+    mul_epu32 c
+      (shuffle_epi32 c
+        (mM_SHUFFLE (Zpos (XO XH)) (Zpos (XO XH)) (Zpos (XO XH)) (Zpos (XO
+          XH))))
+  in
+  cvtsi128_si32 d
+
+(** val mul_epi32x_sse2 : z list -> z list -> z list **)
+
+let mul_epi32x_sse2 a b =
+  let a13 = shuffle_epi32 a (Zpos (XI (XO (XI (XO (XI (XI (XI XH)))))))) in
+  let b13 = shuffle_epi32 b (Zpos (XI (XO (XI (XO (XI (XI (XI XH)))))))) in
+  let prod02 = mul_epu32 a b in
+  let prod13 = mul_epu32 a13 b13 in
+  let prod01 = unpacklo_epi32 prod02 prod13 in
+  let prod23 = unpackhi_epi32 prod02 prod13 in unpacklo_epi64 prod01 prod23
+
+(** val reverse_epi32 : z list -> z list **)
+
+let reverse_epi32 a =
+  shuffle_epi32 a (Zpos (XI (XI (XO (XI XH)))))
+
+(** val abs_epi32_sse2 : z list -> z list **)
+
+let abs_epi32_sse2 a =
+  let sign = srai_epi32 a (Zpos (XI (XI (XI (XI XH))))) in
+  let inv = xor_si128 a sign in sub_epi32 inv sign
+
+(** val neg_epi32 : z list -> z list **)
+
+let neg_epi32 a =
+  sub_epi32 setzero a
+
+(** val dot_epi32_sse2 : z list -> z list -> z **)
+
+let dot_epi32_sse2 a b =
+  sum_epi32 (mul_epi32x_sse2 a b)
+
+(** val mask_to_array : int -> z -> bool list **)
+
+let mask_to_array n0 mask0 =
+  map (fun i ->
+    Z.testbit mask0 (Z.of_nat (sub (sub n0 i) (Stdlib.Int.succ 0))))
+    (seq 0 n0)
+
+(** val mask_store_fb : int -> z -> z list -> (int -> z) -> int -> z **)
+
+let mask_store_fb n0 mask0 v mem0 =
+  fold_left (fun m i ->
+    if nth i (mask_to_array n0 mask0) false
+    then (fun q ->
+           if (=) q (sub (sub n0 i) (Stdlib.Int.succ 0))
+           then nth (sub (sub n0 i) (Stdlib.Int.succ 0)) v Z0
+           else m q)
+    else m) (seq 0 n0) mem0
+
+(** val mask_load_fb : int -> z -> (int -> z) -> z list **)
+
+let mask_load_fb n0 mask0 mem0 =
+  let reg =
+    fold_left (fun r i ->
+      if nth i (mask_to_array n0 mask0) false
+      then (fun q ->
+             if (=) q (sub (sub n0 i) (Stdlib.Int.succ 0))
+             then mem0 (sub (sub n0 i) (Stdlib.Int.succ 0))
+             else r q)
+      else r) (seq 0 n0) (fun _ -> Z0)
+  in
+  map reg (seq 0 n0)
+
 (** val run_matmul_Z :
     cfg -> ety -> int -> int -> int -> z list -> z list -> z list **)
 
@@ -3633,3 +4127,160 @@ let run_network4 i0 i1 i2 i3 d0 d1 d2 d3 a b c d =
                   nth p (Obj.magic c) (Obj.magic Z0)) (fun p ->
                   nth p (Obj.magic d) (Obj.magic Z0))) :: [])),
   (if fst r then map (snd (Obj.magic r)) (seq 0 (prod0 od)) else [])))
+
+(** val run_simd_int : z -> int -> z list -> z list -> z list -> z list **)
+
+let run_simd_int w op a b c =
+  (fun fO fS n -> if n=0 then fO () else fS (n-1))
+    (fun _ -> v_add w a b)
+    (fun n0 ->
+    (fun fO fS n -> if n=0 then fO () else fS (n-1))
+      (fun _ -> v_sub w a b)
+      (fun n1 ->
+      (fun fO fS n -> if n=0 then fO () else fS (n-1))
+        (fun _ -> v_mul w a b)
+        (fun n2 ->
+        (fun fO fS n -> if n=0 then fO () else fS (n-1))
+          (fun _ -> v_div w a b)
+          (fun n3 ->
+          (fun fO fS n -> if n=0 then fO () else fS (n-1))
+            (fun _ -> v_neg w a)
+            (fun n4 ->
+            (fun fO fS n -> if n=0 then fO () else fS (n-1))
+              (fun _ -> v_abs w a)
+              (fun n5 ->
+              (fun fO fS n -> if n=0 then fO () else fS (n-1))
+                (fun _ -> v_min a b)
+                (fun n6 ->
+                (fun fO fS n -> if n=0 then fO () else fS (n-1))
+                  (fun _ -> v_max a b)
+                  (fun n7 ->
+                  (fun fO fS n -> if n=0 then fO () else fS (n-1))
+                    (fun _ -> v_fmadd w a b c)
+                    (fun n8 ->
+                    (fun fO fS n -> if n=0 then fO () else fS (n-1))
+                      (fun _ -> v_fmsub w a b c)
+                      (fun n9 ->
+                      (fun fO fS n -> if n=0 then fO () else fS (n-1))
+                        (fun _ -> v_fnmadd w a b c)
+                        (fun n10 ->
+                        (fun fO fS n -> if n=0 then fO () else fS (n-1))
+                          (fun _ -> v_reverse a)
+                          (fun n11 ->
+                          (fun fO fS n -> if n=0 then fO () else fS (n-1))
+                            (fun _ -> v_set a)
+                            (fun n12 ->
+                            (fun fO fS n -> if n=0 then fO () else fS (n-1))
+                              (fun _ ->
+                              v_set_sequential w (length a) (nth 0 a Z0))
+                              (fun n13 ->
+                              (fun fO fS n -> if n=0 then fO () else fS (n-1))
+                                (fun _ -> (h_sum w a) :: [])
+                                (fun n14 ->
+                                (fun fO fS n -> if n=0 then fO () else fS (n-1))
+                                  (fun _ -> (h_prod w a) :: [])
+                                  (fun n15 ->
+                                  (fun fO fS n -> if n=0 then fO () else fS (n-1))
+                                    (fun _ -> (h_dot w a b) :: [])
+                                    (fun n16 ->
+                                    (fun fO fS n -> if n=0 then fO () else fS (n-1))
+                                      (fun _ -> (h_min a) :: [])
+                                      (fun _ -> (h_max a) :: [])
+                                      n16)
+                                    n15)
+                                  n14)
+                                n13)
+                              n12)
+                            n11)
+                          n10)
+                        n9)
+                      n8)
+                    n7)
+                  n6)
+                n5)
+              n4)
+            n3)
+          n2)
+        n1)
+      n0)
+    op
+
+(** val run_simd_sse2 : int -> z list -> z list -> z list **)
+
+let run_simd_sse2 op a b =
+  (fun fO fS n -> if n=0 then fO () else fS (n-1))
+    (fun _ -> (dot_epi32_sse2 a b) :: [])
+    (fun n0 ->
+    (fun fO fS n -> if n=0 then fO () else fS (n-1))
+      (fun _ -> (dot_epi32_sse2 a b) :: [])
+      (fun n1 ->
+      (fun fO fS n -> if n=0 then fO () else fS (n-1))
+        (fun _ -> mul_epi32x_sse2 a b)
+        (fun n2 ->
+        (fun fO fS n -> if n=0 then fO () else fS (n-1))
+          (fun _ -> (dot_epi32_sse2 a b) :: [])
+          (fun n3 ->
+          (fun fO fS n -> if n=0 then fO () else fS (n-1))
+            (fun _ -> neg_epi32 a)
+            (fun n4 ->
+            (fun fO fS n -> if n=0 then fO () else fS (n-1))
+              (fun _ -> abs_epi32_sse2 a)
+              (fun n5 ->
+              (fun fO fS n -> if n=0 then fO () else fS (n-1))
+                (fun _ -> (dot_epi32_sse2 a b) :: [])
+                (fun n6 ->
+                (fun fO fS n -> if n=0 then fO () else fS (n-1))
+                  (fun _ -> (dot_epi32_sse2 a b) :: [])
+                  (fun n7 ->
+                  (fun fO fS n -> if n=0 then fO () else fS (n-1))
+                    (fun _ -> (dot_epi32_sse2 a b) :: [])
+                    (fun n8 ->
+                    (fun fO fS n -> if n=0 then fO () else fS (n-1))
+                      (fun _ -> (dot_epi32_sse2 a b) :: [])
+                      (fun n9 ->
+                      (fun fO fS n -> if n=0 then fO () else fS (n-1))
+                        (fun _ -> (dot_epi32_sse2 a b) :: [])
+                        (fun n10 ->
+                        (fun fO fS n -> if n=0 then fO () else fS (n-1))
+                          (fun _ -> reverse_epi32 a)
+                          (fun n11 ->
+                          (fun fO fS n -> if n=0 then fO () else fS (n-1))
+                            (fun _ -> (dot_epi32_sse2 a b) :: [])
+                            (fun n12 ->
+                            (fun fO fS n -> if n=0 then fO () else fS (n-1))
+                              (fun _ ->
+                              (dot_epi32_sse2 a b) :: [])
+                              (fun n13 ->
+                              (fun fO fS n -> if n=0 then fO () else fS (n-1))
+                                (fun _ -> (sum_epi32 a) :: [])
+                                (fun n14 ->
+                                (fun fO fS n -> if n=0 then fO () else fS (n-1))
+                                  (fun _ -> (prod_epi32 a) :: [])
+                                  (fun _ -> (dot_epi32_sse2 a b) :: [])
+                                  n14)
+                                n13)
+                              n12)
+                            n11)
+                          n10)
+                        n9)
+                      n8)
+                    n7)
+                  n6)
+                n5)
+              n4)
+            n3)
+          n2)
+        n1)
+      n0)
+    op
+
+(** val run_mask_store : int -> z -> z list -> z list -> z list **)
+
+let run_mask_store n0 mask0 v mem0 =
+  map (mask_store_fb n0 mask0 v (fun q -> nth q mem0 Z0))
+    (seq 0 (length mem0))
+
+(** val run_mask_load : int -> z -> z list -> z list **)
+
+let run_mask_load n0 mask0 mem0 =
+  mask_load_fb n0 mask0 (fun q -> nth q mem0 Z0)
